@@ -83,7 +83,7 @@ func sectionKind(sec string) string {
 // expiration lists (and the expiring contracts served for the next block) that
 // are permutations of the twin's, and the history contains a reverted block
 // after which the documented list operations do not restore the order.
-func CompareWithTwin(v *View, lin *Lin, triggered bool) (f *Finding, known bool) {
+func CompareWithTwin(v *View, lin *Lin, triggered bool, documented map[uint64][]types.Hash256) (f *Finding, known bool) {
 	ds := Compare(v, lin.View)
 	if len(ds) == 0 {
 		return nil, false
@@ -98,6 +98,13 @@ func CompareWithTwin(v *View, lin *Lin, triggered bool) (f *Finding, known bool)
 			if firstOther == nil {
 				firstOther = d
 			}
+		}
+	}
+	if allPerm && triggered && documented != nil {
+		// the known finding excuses exactly the order the documented operations (append on
+		// apply, prepend on revert, swap-remove on delete) produce, nothing else
+		if d := cmpLists("expiration-lists", v.Exp, documented); d != nil {
+			return &Finding{Kind: "c02-expiry-order-differs-without-cause", Detail: "expiration lists differ from the linear twin's, and not in the way the documented append/prepend/swap-remove behaviour reorders them: " + strings.Replace(d.Detail, "the twin has", "the documented operations give", 1) + " (twin: " + ds[0].Detail + ")"}, false
 		}
 	}
 	if allPerm && triggered {
@@ -294,7 +301,7 @@ func Judge(nd *Node, tw *Twins) (*Finding, Stats) {
 			return &Finding{Kind: "c02-twin-failed", Detail: err.Error(), Step: i}, st
 		}
 		st.Compared++
-		if f, _ := CompareWithTwin(s.View, lin, st.Trigger); f != nil {
+		if f, _ := CompareWithTwin(s.View, lin, st.Trigger, em.Lists()); f != nil {
 			f.Step = i
 			if len(rr) > 0 && (f.Kind == "c02-file-contract-elements-differ" || f.Kind == "c02-accumulator-nodes-differ") {
 				confined, names := true, false
